@@ -49,6 +49,12 @@ CLAIMS = {
         'note': 'Trusts the three tables RULES_LEVEL/SCANNER_LEVEL/COMPILER_LEVEL (API function -> type constants -> union member) in yrsa/rules/C20.py and type-based effect analysis.',
         'technique': 'static must-pass (type check dominates store) path analysis + effect analysis + sibling table over clang CFG facts',
     },
+    'C18': {
+        'text': 'Decides the synchronisation structure of cli/yara.c: every access to the file queue holds queue_mutex (must-hold lockset with entry locksets inherited from callers), producer/consumer semaphore wait/post are paired on every non-timeout path, file_queue_finish posts one token per possible thread and main bounds the thread count by the same constant; every global written by code reachable from scanning_thread is read and written under a lock; every stdout print reachable from scanning_thread holds output_mutex; each thread gets a private scanner; an error printed while scanning a directory must reach the exit status (two known findings: it does not). Necessary structural clauses; equality of stdout across runs and yarac equivalence are not decided.',
+        'design_ref': 'DESIGN.md section 4, C18 (R18.1-R18.5)',
+        'note': 'Single-call fprintf(stderr) warnings are accepted without the mutex (POSIX stdio locking). Only cli/yara.c is analysed for locksets; library code reachable from the thread is covered by C09.',
+        'technique': 'static must-hold lockset analysis with caller-derived entry locksets + structural pairing checks over clang CFG facts',
+    },
     'C12': {
         'text': 'Decides, for every constant-folding grammar action, that the folder applies the same C operator and the same operand-value guards as the VM handler of the opcode the action emits; that no compiler-layer code reads a run-time object value; that externals are looked up in the scanner-owned table; and that shortcut flags are cleared on every path that uses a string otherwise. These are necessary structural clauses of C12, decided on all sites; verdict equality itself is not decided.',
         'design_ref': 'DESIGN.md section 4, C12 (R12.1-R12.6)',
